@@ -331,7 +331,14 @@ func (c *ctx) runContainer(ops []op, origin string) []byte {
 			case "SetByte":
 				cont.SetByte(o.Tag, o.Val[0])
 			case "SetBytes":
-				cont.SetBytes(o.Tag, o.Val)
+				// the caller owns its buffer: it is handed over as a private copy and reused (overwritten) as
+				// soon as the call has returned; the container must hold the value that was set
+				arg := append(make([]byte, 0, len(o.Val)+7), o.Val...)
+				cont.SetBytes(o.Tag, arg)
+				for k := range arg {
+					arg[k] = ^arg[k]
+				}
+				_ = append(arg, 0xEE, 0xEE, 0xEE, 0xEE, 0xEE, 0xEE, 0xEE)
 			case "SetString":
 				cont.SetString(o.Tag, string(o.Val))
 			}
